@@ -100,3 +100,184 @@ class EnumRef:
 
     def count(self):
         return len(self.M)
+
+
+    def infeasible_tuples(self, es, tups, extras=()):
+        T = self.tuples(es, extras)
+        return [t for t in tups if tuple(t) not in T]
+
+    def missing_tuple(self, es, tups, extras=()):
+        rest = self.tuples(es, extras) - {tuple(t) for t in tups}
+        return min(rest) if rest else None
+
+
+class NoVerdict(Exception):
+    """the reference solver answered 'unknown': the question gets no verdict (counted, never a violation)"""
+
+
+class NullRef:
+    """generator-side stand-in for alphabets whose reference needs Z3 (the generator never touches Z3)"""
+
+    kind = "null"
+    M = []
+    universe = []
+
+    def __init__(self, *a, **k):
+        pass
+
+    def copy(self):
+        return self
+
+    def with_models(self, M):
+        return self
+
+    def add(self, spec):
+        pass
+
+    def models(self, extras=()):
+        return []
+
+    def sat(self, extras=()):
+        return None
+
+    def values(self, e, extras=()):
+        return set()
+
+    def tuples(self, es, extras=()):
+        return set()
+
+    def optimum(self, e, signed, is_max, extras=()):
+        return None
+
+    def feasible_eq(self, e, v, extras=()):
+        return None
+
+
+class Z3Ref:
+    """Z3REF reference (DESIGN 3.3): a plain list of reference-context constraints; every oracle question creates a
+    fresh z3.Solver in a Context claripy never sees.  'unknown' raises NoVerdict."""
+
+    kind = "z3"
+    M = None
+    universe = None
+
+    def __init__(self, variables, order, cons=None):
+        self.variables = variables
+        self.order = order
+        self.cons = list(cons or [])
+
+    def copy(self):
+        return Z3Ref(self.variables, self.order, self.cons)
+
+    def _b(self, spec):
+        from .spec import build_z3ref
+
+        return build_z3ref(spec, self.variables)
+
+    def add(self, spec):
+        self.cons.append(self._b(spec))
+
+    def _check(self, extras=(), more=()):
+        import z3
+
+        from .spec import ref_ctx
+
+        s = z3.Solver(ctx=ref_ctx())
+        s.set("timeout", 8000)
+        s.add(*self.cons)
+        for e in extras:
+            s.add(self._b(e))
+        for m in more:
+            s.add(m)
+        r = s.check()
+        if r == z3.unknown:
+            raise NoVerdict
+        return r == z3.sat, s
+
+    def sat(self, extras=()):
+        return self._check(extras)[0]
+
+    def _const(self, e, v):
+        import z3
+
+        from .spec import ref_ctx
+
+        w = width_of(e, self.variables)
+        t = self._b(e)
+        if w == 0:
+            return t == z3.BoolVal(bool(v), ref_ctx())
+        return t == z3.BitVecVal(v % (1 << w), w, ref_ctx())
+
+    def infeasible_values(self, e, vals, extras=()):
+        return [v for v in vals if not self._check(extras, [self._const(e, v)])[0]]
+
+    def missing_value(self, e, vals, extras=()):
+        import z3
+
+        ok, s = self._check(extras, [z3.Not(self._const(e, v)) for v in vals])
+        if not ok:
+            return None
+        r = s.model().eval(self._b(e), model_completion=True)
+        return (1 if z3.is_true(r) else 0) if z3.is_bool(r) else r.as_long()
+
+    def infeasible_tuples(self, es, tups, extras=()):
+        import z3
+
+        return [t for t in tups if not self._check(extras, [z3.And(*[self._const(e, v) for e, v in zip(es, t)])])[0]]
+
+    def missing_tuple(self, es, tups, extras=()):
+        import z3
+
+        ok, s = self._check(extras, [z3.Not(z3.And(*[self._const(e, v) for e, v in zip(es, t)])) for t in tups])
+        if not ok:
+            return None
+        out = []
+        for e in es:
+            r = s.model().eval(self._b(e), model_completion=True)
+            out.append((1 if z3.is_true(r) else 0) if z3.is_bool(r) else r.as_long())
+        return tuple(out)
+
+    def optimum(self, e, signed, is_max, extras=()):
+        """bit pattern of the optimum or None when unsatisfiable; binary search with plain checks"""
+        import z3
+
+        from .spec import ref_ctx
+
+        if not self._check(extras)[0]:
+            return None
+        w = width_of(e, self.variables)
+        t = self._b(e)
+        ctx = ref_ctx()
+        key = (t ^ z3.BitVecVal(1 << (w - 1), w, ctx)) if signed else t  # order-preserving map signed -> unsigned
+        lo, hi = 0, (1 << w) - 1
+        while lo < hi:
+            mid = (lo + hi) // 2
+            if is_max:
+                ok = self._check(extras, [z3.UGT(key, z3.BitVecVal(mid, w, ctx))])[0]
+                if ok:
+                    lo = mid + 1
+                else:
+                    hi = mid
+            else:
+                ok = self._check(extras, [z3.ULE(key, z3.BitVecVal(mid, w, ctx))])[0]
+                if ok:
+                    hi = mid
+                else:
+                    lo = mid + 1
+        return (lo ^ (1 << (w - 1))) if signed else lo
+
+    def feasible_eq(self, e, v, extras=()):
+        if isinstance(v, (list, tuple)):
+            return self._check(extras, [self._b(e) == self._b(v)])[0]
+        return self._check(extras, [self._const(e, v)])[0]
+
+    def holds_all(self, e, extras=()):
+        import z3
+
+        return not self._check(extras, [z3.Not(self._b(e))])[0]
+
+    def fails_all(self, e, extras=()):
+        return not self._check(extras, [self._b(e)])[0]
+
+    def values(self, e, extras=()):
+        raise NoVerdict
